@@ -58,3 +58,9 @@ Theorem lmethod_knee_holds_float n (lerr : nat -> nat -> oval float) it limit :
   (forall m, 3 <= m <= n -> Forall (fun i => oval_is_val (lerr m i) = true) (lm_cands m)) ->
   @lmethod_knee_holds FloatNum n lerr it limit (@lmethod_knee_res FloatNum n lerr it limit) = 0%Z.
 Proof. apply (@lmethod_knee_holds_model FloatNum n lerr float_total_preorder float_nan_unordered). Qed.
+
+(* names used in DESIGN.md section 4 / C09 *)
+Definition lmethod_get_knee_range := @lm_get_knee_range.
+Definition lmethod_get_knee_interior := @lm_get_knee_interior.
+Definition lmethod_get_knee_spec := @lm_get_knee_spec.
+Definition dfdt_get_knee_gradient_range := @dfdt_gkg_range.
